@@ -50,7 +50,8 @@ def prepare(tier, seed, scratch):
 
 def shards(tier, seed):
     per = 10 if tier == "quick" else 60
-    return [{"seed": seed * 2593 + s * 11 + 19, "n": per, "pure_python": False, "timeout_s": 3300} for s in range(16)]
+    return [{"seed": seed * 2593 + s * 11 + 19, "n": per, "pure_python": False, "timeout_s": 3300, "shard_index": s}
+            for s in range(16)]
 
 
 def run_shard(params):
@@ -66,11 +67,18 @@ def run_shard(params):
     cnt = res["counters"]
     seen = set()
     classes = set()
-    for i in range(params["n"]):
-        P = stop_sim.gen_params(rng, i, tier, force=params.get("force"))
+    todo = [(stop_sim.gen_params(rng, i, tier, force=params.get("force")), False) for i in range(params["n"])]
+    if params.get("shard_index", 0) == 0:
+        import json as _json
+        import os as _os
+        with open(_os.path.join(_os.path.dirname(_os.path.abspath(__file__)), "c19_pinned.json")) as f:
+            for ent in _json.load(f):
+                todo.append((ent["params"], True))
+                cnt["pinned_histories"] = cnt.get("pinned_histories", 0) + 1
+    for P, pinned in todo:
         H0 = stop_sim.run_history(P)
-        runs = [(None, P, H0)]
-        if not H0["errors"] and H0.get("stop"):
+        runs = [(P.get("stop_at_event"), P, H0)]
+        if not H0["errors"] and H0.get("stop") and not pinned:
             lo, hi = H0.get("events_at_start", 0), H0["stop"].get("event", 0)
             for _ in range(POINTS[tier]):
                 k = rng.randint(lo + 1, max(lo + 2, hi))
